@@ -1539,8 +1539,9 @@ func (t *Terminal) UpdateList(merger *Merger) {
 		} else {
 			// Trimmed by --tail: filter selection by index
 			filtered := make(map[int32]selectedItem)
+			// The range of the items in the list, not of the matches
 			minIndex := merger.minIndex
-			maxIndex := minIndex + int32(merger.Length())
+			maxIndex := minIndex + int32(merger.total)
 			for k, v := range t.selected {
 				var included bool
 				if maxIndex > minIndex {
